@@ -44,10 +44,16 @@ AXES = {
     "optics": ["args", "detector"],
 }
 
-OPS_ALL = ["holo-mieA", "holo-mieB", "holo-ms2", "holo-tmA", "holo-tmB",
-           "holo-mielens", "xsec-mie", "smat-tm", "holo-ms1", "holo-tmcyl",
-           "holo-tmsph", "holo-layered"]
-OPS = {"quick": OPS_ALL[:8], "thorough": OPS_ALL}
+# operation alphabet; the "2"/"3" variants differ from their base only
+# slightly (same expansion order, nearly the same index / radius /
+# orientation / depth), so that a result cached or left over under a key
+# that is too coarse shows up as a history dependence
+OPS_ALL = ["holo-mieA", "holo-mieA2", "holo-mieA3", "holo-tmA", "holo-tmA2",
+           "holo-mieB", "holo-ms2", "holo-ms2b", "holo-mielens",
+           "holo-mielens2", "xsec-mie", "smat-tm", "holo-tmB", "holo-ms1",
+           "holo-tmcyl", "holo-tmsph", "holo-layered"]
+OPS = {"quick": OPS_ALL[:12], "thorough": OPS_ALL}
+CORE = OPS_ALL[:5]
 
 
 def cases(tier, seed):
@@ -57,12 +63,30 @@ def cases(tier, seed):
                           D):
         out.append({"id": "in:" + vec_id(vec), "kind": "input", "vec": vec})
     ops = OPS[tier]
+    # pristine-interpreter reference of every operation, computed once by
+    # forking from the (pristine) driver
+    refs = {}
+    for name in ops:
+        st, val = fork_call(_op_digest, name)
+        refs[name] = val if st == "ok" else "FAILED:%s:%r" % (st, val)
+    seqs = []
     for L in (1, 2, 3):
-        for seq in itertools.product(range(len(ops)), repeat=L):
-            out.append({"id": "hist:" + ">".join(ops[i] for i in seq),
-                        "kind": "history", "seq": [ops[i] for i in seq]})
+        for seq in itertools.product(ops, repeat=L):
+            # quick: all sequences of length <= 2, and length 3 over the
+            # core of near-identical operations
+            if tier == "quick" and L == 3 and \
+                    not all(o in CORE for o in seq):
+                continue
+            seqs.append(list(seq))
+    for seq in seqs:
+        out.append({"id": "hist:" + ">".join(seq), "kind": "history",
+                    "seq": seq, "ref": {o: refs[o] for o in seq}})
     mie_ref.ensure([mie_ref.req_homog(1.59 / H.NMED, H.K * 0.5)])
     return out
+
+
+def _op_digest(name):
+    return digest(_op(name))
 
 
 # --------------------------------------------------------------------------
@@ -214,6 +238,15 @@ def _shared():
                   "tm-cylinder", "tm-sphere", "layered"):
             _SHARED[k] = H.mk(k)
         _SHARED["mieB"] = Sphere(n=1.45, r=0.8, center=(0.1, 0.3, 7.0))
+        c0 = H.C0
+        _SHARED["mieA2"] = Sphere(n=1.60, r=0.5, center=c0)
+        _SHARED["mieA3"] = Sphere(n=1.59, r=0.501, center=c0)
+        _SHARED["tmA2"] = Spheroid(n=1.59, r=(0.3, 0.6),
+                                   rotation=(0.0, 0.41, 0.7), center=c0)
+        _SHARED["ms2b"] = H.mk_scatterer(
+            ("spheres", [(1.59, 0.5, c0), (1.45, 0.3, (1.3, 0.9, 6.05))]))
+        _SHARED["mielens2"] = Sphere(n=1.59, r=0.5,
+                                     center=(c0[0], c0[1], c0[2] + 0.01))
         _SHARED["tmB"] = Spheroid(n=1.5, r=(0.9, 0.45),
                                   rotation=(0, 1.1, 0.2),
                                   center=(0.2, 0.1, 6.0))
@@ -235,6 +268,14 @@ def _op(name):
         r = holo("mie")
     elif name == "holo-mieB":
         r = calc_holo(det, S["mieB"], theory=S["mie"][1], **kw)
+    elif name in ("holo-mieA2", "holo-mieA3"):
+        r = calc_holo(det, S[name[5:]], theory=S["mie"][1], **kw)
+    elif name == "holo-tmA2":
+        r = calc_holo(det, S["tmA2"], theory=S["tm-spheroid"][1], **kw)
+    elif name == "holo-ms2b":
+        r = calc_holo(det, S["ms2b"], theory=S["ms2"][1], **kw)
+    elif name == "holo-mielens2":
+        r = calc_holo(det, S["mielens2"], theory=S["mielens"][1], **kw)
     elif name == "holo-ms2":
         r = holo("ms2")
     elif name == "holo-ms1":
@@ -268,7 +309,8 @@ def _inputs_fp():
     for k, v in sorted(S.items()):
         if isinstance(v, tuple):
             parts.append(repr(v[0]))
-        elif k in ("mieB", "tmB"):
+        elif k in ("mieB", "tmB", "mieA2", "mieA3", "tmA2", "ms2b",
+                   "mielens2"):
             parts.append(repr(v))
     return digest(*parts)
 
@@ -281,24 +323,18 @@ def _run_history(case, ck):
     seq = case["seq"]
     _shared()
     before = _inputs_fp()
-    ref = {}
-    for name in dict.fromkeys(seq):
-        st, val = fork_call(_pristine, name)
-        if st != "ok":
+    ref = case["ref"]
+    for name in seq:
+        if str(ref[name]).startswith("FAILED"):
             ck.true("pristine-reference", False, "operation %s failed as the "
-                    "first call of a pristine interpreter: %s %r" %
-                    (name, st, val))
+                    "first call of a pristine interpreter: %s" %
+                    (name, ref[name]))
             return "ref-failed"
-        ref[name] = val
     outs = []
     for i, name in enumerate(seq):
         got = _op(name)
         ck.trans += 1
-        same = got.tobytes() == ref[name]
-        if not same:
-            r = np.frombuffer(ref[name], dtype=got.dtype).reshape(got.shape)
-            d = float(np.max(np.abs(got - r)))
-            ck.metric("history-diff", d)
+        same = digest(got) == ref[name]
         ck.true("history-independent", same,
                 "step %d (%s) of %s differs from the same call in a pristine "
                 "interpreter" % (i + 1, name, ">".join(seq)))
